@@ -18,6 +18,10 @@ def sh(cmd):
     return subprocess.run(cmd, shell=True, capture_output=True, text=True).stdout
 
 
+# C library functions that store through their first argument
+WRITERS = {'sprintf', 'snprintf', 'vsprintf', 'vsnprintf', 'strcpy', 'strncpy', 'strcat', 'strncat', 'memcpy', 'memmove', 'memset', 'stpcpy', '__sprintf_chk', '__snprintf_chk', '__strcpy_chk', '__memcpy_chk', '__memset_chk', '__strcat_chk'}
+
+
 def extract(unit, tmp, opt='-O1'):
     obj = os.path.join(tmp, unit + opt + '.o')
     r = subprocess.run('clang ' + opt + ' -g0 -ffunction-sections -fdata-sections -DENABLE_LOCALES -I%s -c %s/%s.c -o %s' % (REPO, REPO, unit, obj),
@@ -51,12 +55,20 @@ def extract(unit, tmp, opt='-O1'):
     for l in sh('objdump -dr --no-show-raw-insn %s' % obj).splitlines():
         m = re.match(r'^[0-9a-f]+ <([^>]+)>:', l)
         if m:
-            cur = m.group(1); acc.setdefault(cur, {}); calls.setdefault(cur, set()); continue
+            cur = m.group(1); acc.setdefault(cur, {}); calls.setdefault(cur, set()); addr_reg = {}; continue
         if cur is None:
             continue
         mi = re.match(r'^\s+[0-9a-f]+:\s+(\S.*)$', l)
         if mi and 'R_X86_64' not in l:
-            lastins = mi.group(1); continue
+            lastins = mi.group(1)
+            # registers that hold the address of a writable static object (for destinations handed to the C library, see WRITERS)
+            mm = re.match(r'mov\s+(%r\w+),(%r\w+)\s*(#.*)?$', lastins)
+            if mm:
+                if mm.group(1) in addr_reg:
+                    addr_reg[mm.group(2)] = addr_reg[mm.group(1)]
+                else:
+                    addr_reg.pop(mm.group(2), None)
+            continue
         mr = re.match(r'^\s+[0-9a-f]+:\s+(R_X86_64_\S+)\s+(\S+)', l)
         if not mr:
             continue
@@ -67,6 +79,9 @@ def extract(unit, tmp, opt='-O1'):
         if sym in funcs or rel in ('R_X86_64_PLT32',) and sym not in inventory:
             op = lastins.split()[0] if lastins else ''
             if op.startswith('call') or op.startswith('jmp'):
+                if sym in WRITERS and addr_reg.get('%rdi'):       # sprintf(static_buffer, ...), memcpy(static_buffer, ...): a store into the object
+                    d = addr_reg['%rdi']; acc[cur][d] = ''.join(sorted(set(acc[cur].get(d, '') + 'w')))
+                addr_reg = {}
                 calls[cur].add(sym)
             else:
                 calls[cur].add(sym)      # address of a function taken (hooks): treat as a potential call
@@ -82,8 +97,12 @@ def extract(unit, tmp, opt='-O1'):
         op = ins.split()[0] if ins else ''
         operands = ins[len(op):].strip()
         kind = 'a'
-        if op.startswith('lea'):
+        if op.startswith('lea') or (op.startswith('mov') and operands.startswith('$') and '(%rip)' not in operands and operands.split('#')[0].split(',')[-1].strip().startswith('%')):
             kind = 'a'
+            dest = operands.split('#')[0].split(',')[-1].strip()
+            if dest.startswith('%e'):
+                dest = '%r' + dest[2:]
+            addr_reg[dest] = sym
         else:
             parts = [p.strip() for p in re.split(r',(?![^()]*\))', operands)]
             memidx = [i for i, p in enumerate(parts) if '(%rip)' in p]
